@@ -68,7 +68,8 @@ Theorem cond_helper_decides f r c fn :
   typ r = typeCond -> condHlp r <> [] -> condLC r = lcNone -> u_cond U (condHlp r) = Some fn ->
   follow U (S f) r c =
     (let '(c1, a) := collect_args c (condHlpArg r) [] in
-     let '(c2, n) := log_call c1 (bs "cond") (condHlp r) a in
+     let failed := match snd (fn (ncalls c1) a) with Some _ => true | None => false end in
+     let '(c2, n) := log_call c1 (kind_of (bs "cond") failed) (condHlp r) a in
      let c3 := match snd (fn n a) with Some x => w_cerr c2 (Some x) | None => c2 end in
      match cerr c3 with
      | Some x => (c3, Some x)
